@@ -145,14 +145,15 @@ def shape_defect(text, n, clauses):
     rest = [l for l in lines if not l.startswith('c')]
     if not rest:
         return 'no problem line'
-    if rest[0] != 'p cnf %d %d' % (n, len(clauses)):
+    if rest[0].split() != ['p', 'cnf', str(n), str(len(clauses))]:
         return 'problem line is %r, true counts are %d %d' % (rest[0][:60], n, len(clauses))
-    want = [''.join('%d ' % l for l in c) + '0' for c in clauses]
-    if rest[1:] != want:
-        for i, (a, b) in enumerate(zip(rest[1:], want)):
+    want = [[str(l) for l in c] + ['0'] for c in clauses]
+    got = [l.split() for l in rest[1:]]
+    if got != want:
+        for i, (a, b) in enumerate(zip(got, want)):
             if a != b:
-                return 'clause line %d is %r, expected %r' % (i + 1, a[:60], b[:60])
-        return 'number of clause lines %d, expected %d' % (len(rest) - 1, len(want))
+                return 'clause line %d is %r, expected the tokens %r' % (i + 1, rest[1 + i][:60], b[:12])
+        return 'number of clause lines %d, expected %d' % (len(got), len(want))
     return None
 
 
